@@ -139,7 +139,7 @@ def gen_schedules(rng, tier, kinds=('bsp', 'blp'), flush=True, shut=True):
         if flush:
             fl = ''.join(rng.choice('iii120') for _ in range(rng.choice([0, 1, 1, 2])))
         nshut = rng.choice([0, 1, 1, 2]) if shut else 0
-        xs = rng.choice(['s', 's', 'sf', 'f', 'sF', 'sS', 'sfFS'])
+        xs = rng.choice(['s', 's', 'sf', 'f', 'sF', 'sS', 'sfFS', 'u', 'su', 'v', 'suvf', 'uS'])
         nth = 1 + nprod + len(fl) + nshut
         n = rng.randrange(10, 160)
         mode = rng.random()
